@@ -172,6 +172,7 @@ class State:
     def assume(self, f):
         if f is True:
             return
+        eqs = []
         for g in conjuncts(f):
             if isinstance(g, tuple) and g and g[0] == "req" and self.pending and self.define_ring(g[1]):
                 continue
@@ -184,14 +185,65 @@ class State:
             if atom is not None:
                 before = self.bounds.get(atom)
             self.run.note_bound(self, g)
-            self.propagate_equality(g)
+            eqs.append(g)
             if atom is not None:
                 lo_hi = self.bounds.get(atom)
                 if lo_hi and lo_hi != before and lo_hi[0] is not None and lo_hi[0] == lo_hi[1]:
                     # the interval collapsed to a point: the variable is that constant from here on
                     eq = ("=", Poly.atom(atom), Poly.const(lo_hi[0]))
                     self.hyps.append(eq)
-                    self.propagate_equality(eq)
+                    eqs.append(eq)
+        self.propagate_equalities(eqs)
+
+    def propagate_equalities(self, gs):
+        """assumed `variable == constant` facts are substituted into registers, memory and caches (one pass for
+        the whole batch), so that lengths and indices fixed by the path condition become concrete"""
+        env = {}
+        bvenv = []
+        for g in gs:
+            if not isinstance(g, tuple) or g[0] != "=":
+                continue
+            a, b = g[1], g[2]
+            if isinstance(a, Poly) and isinstance(b, Poly):
+                d = a - b
+                ats = [(m, c) for m, c in d.t.items() if m != ()]
+                if len(ats) == 1 and len(ats[0][0]) == 1 and ats[0][1] in (1, -1):
+                    env[ats[0][0][0]] = Poly.const(-d.const_val() * ats[0][1])
+            elif isinstance(a, tuple) and isinstance(b, tuple):
+                for x, y in ((a, b), (b, a)):
+                    if x and x[0] == "bvvar" and y and y[0] == "bvconst":
+                        bvenv.append((x, y))
+        if not env and not bvenv:
+            return
+        names = set(env)
+
+        def rep(v):
+            if isinstance(v, Poly):
+                if names and not names.isdisjoint(v.atoms()):
+                    return v.subst(env)
+                return v
+            for x, y in bvenv:
+                if v == x:
+                    return y
+            return v
+
+        def fix(v):
+            if isinstance(v, SliceV):
+                return SliceV(v.obj, v.path, rep(v.off), rep(v.len), rep(v.cap))
+            return rep(v)
+        for k in list(self.regs):
+            self.regs[k] = fix(self.regs[k])
+        for k in list(self.mem):
+            self.mem[k] = fix(self.mem[k])
+        for k in list(self.cache):
+            v = self.cache[k]
+            if isinstance(v, tuple):
+                self.cache[k] = tuple(fix(x) for x in v)
+            else:
+                self.cache[k] = fix(v)
+
+    def propagate_equality(self, g):
+        self.propagate_equalities([g])
 
     def _single_atom(self, g):
         if isinstance(g, tuple) and g and g[0] in ("<", "<=") and isinstance(g[1], Poly) and isinstance(g[2], Poly):
@@ -249,46 +301,52 @@ class State:
             return True
         return False
 
-    def propagate_equality(self, g):
-        """an assumed `variable == constant` is substituted into the registers and memory, so that
-        lengths and indices that the path condition fixes become concrete"""
-        if not isinstance(g, tuple) or g[0] != "=":
-            return
-        a, b = g[1], g[2]
-        name = val = None
-        if isinstance(a, Poly) and isinstance(b, Poly):
-            d = a - b
-            ats = [(m, c) for m, c in d.t.items() if m != ()]
-            if len(ats) == 1 and len(ats[0][0]) == 1 and ats[0][1] in (1, -1):
-                name = ats[0][0][0]
-                val = -d.const_val() * ats[0][1]
-                rep = lambda v: v.subst({name: Poly.const(val)}) if isinstance(v, Poly) and name in v.atoms() else v
-        elif isinstance(a, tuple) and isinstance(b, tuple):
-            for x, y in ((a, b), (b, a)):
-                if x and x[0] == "bvvar" and y and y[0] == "bvconst":
-                    name, val = x, y
+    def truth(self, f):
+        """True / False if the formula (or its negation) is literally among the path's hypotheses, else None"""
+        if f is True or f is False:
+            return f
+        hs = self._hs
+        if self._hs_len > len(self.hyps):
+            hs = self._hs = set()
+            self._hs_len = 0
+        for h in self.hyps[self._hs_len:]:
+            try:
+                hs.add(h)
+            except TypeError:
+                pass
+        self._hs_len = len(self.hyps)
+        cs = conjuncts(f)
+        try:
+            if all(c in hs for c in cs):
+                return True
+            if len(cs) == 1 and mk_not(f) in hs:
+                return False
+        except TypeError:
+            return None
+        return None
 
-                    def rep(v, x=x, y=y):
-                        if v == x:
-                            return y
-                        return v
-        if name is None:
-            return
-
-        def fix(v):
-            if isinstance(v, SliceV):
-                return SliceV(v.obj, v.path, rep(v.off), rep(v.len), rep(v.cap))
-            return rep(v)
-        for k in list(self.regs):
-            self.regs[k] = fix(self.regs[k])
-        for k in list(self.mem):
-            self.mem[k] = fix(self.mem[k])
-        for k in list(self.cache):
-            v = self.cache[k]
-            if isinstance(v, tuple):
-                self.cache[k] = tuple(fix(x) for x in v)
-            else:
-                self.cache[k] = fix(v)
+    def define_ring(self, p):
+        """p == 0 where p = +-a + rest and a is an element atom havocked by the call being applied and not
+        occurring in rest: the cell simply gets the value -+rest (no hypothesis is needed)"""
+        from .ring import RVal, RPoly
+        for a, key in list(self.pending.items()):
+            m = ((a, 1),)
+            c = p.t.get(m)
+            if c not in (1, -1):
+                continue
+            rest = RPoly({k: v for k, v in p.t.items() if k != m})
+            if a in rest.atoms():
+                continue
+            val = -rest if c == 1 else rest
+            old = self.mem.get(key)
+            if not isinstance(old, RVal) or old.poly != RPoly.atom(a):
+                continue
+            if any(a in ring_atoms_of(h) for h in self.hyps[self.call_mark:]):
+                continue
+            self.mem[key] = RVal(val, old.inv, old.raw)
+            del self.pending[a]
+            return True
+        return False
 
 
 class FuncRun:
@@ -333,6 +391,7 @@ class FuncRun:
         self.asm_body = None
         self.cut_seen = set()
         self.cut_done = {}
+        self.cut_first = {}
         self.parked = {}
         self.sum_memo = {}
         self.split_ranges = []
@@ -756,8 +815,15 @@ class FuncRun:
             if kind == "entrysplit":
                 import re as _re
                 from .cparse import parse_expr
-                m = _re.match(r"^(.*)\s+in\s+(-?\d+)\s*\.\.\s*(-?\d+)$", txt)
-                lo, hi = int(m.group(2)), int(m.group(3))
+                mset = _re.match(r"^(.*)\s+in\s+\{([-\d,\s]+)\}$", txt)
+                if mset:
+                    values = [int(x) for x in mset.group(2).split(",")]
+                    m = mset
+                    lo, hi = min(values), max(values) + 1
+                else:
+                    m = _re.match(r"^(.*)\s+in\s+(-?\d+)\s*\.\.\s*(-?\d+)$", txt)
+                    lo, hi = int(m.group(2)), int(m.group(3))
+                    values = list(range(lo, hi))
                 new_states = []
                 # the split must cover the precondition: proved from the requires clauses that can be evaluated
                 # before the split (e.g. `len(points) < 4`)
@@ -769,15 +835,21 @@ class FuncRun:
                     except (VerifError, Unsupported):
                         pass
                 eb = evb.int(parse_expr(m.group(1)))
-                self.add_named(sb, "pre", "entrysplit.exhaustive", "", mk_and(self.dom.s_cmp("<=", self.dom.s_const(lo), eb), self.dom.s_cmp("<", eb, self.dom.s_const(hi))),
+                self.add_named(sb, "pre", "entrysplit.exhaustive", "", mk_or(*[self.dom.s_cmp("==", eb, self.dom.s_const(v_)) for v_ in values]),
                                "the entry case split %s covers the precondition" % txt)
                 for s0 in entry_states:
+                    from .ceval import MInt
                     ev0 = Evaluator(self, s0, self.old_mem, self.contract_env(s0), phase="pre")
-                    e = ev0.int(parse_expr(m.group(1)))
+                    raw = ev0.ev(parse_expr(m.group(1)), False)
+                    e = ev0.as_int(raw)
                     self.split_ranges.append((m.group(1), lo, hi))
-                    for k_ in range(lo, hi):
+                    for k_ in values:
                         s2 = s0.fork()
-                        s2.assume(self.dom.s_cmp("==", e, self.dom.s_const(k_)))
+                        if isinstance(raw, MInt):
+                            # at machine width, so that the equality can be substituted into the state
+                            s2.assume(self.int_cmp("==", raw.v, self.mk_int(k_, raw.w), raw.s))
+                        else:
+                            s2.assume(self.dom.s_cmp("==", e, self.dom.s_const(k_)))
                         new_states.append(s2)
                 entry_states = new_states
         first = True
@@ -847,6 +919,8 @@ class FuncRun:
             pv = self.param_vals[p["name"]]
             if st is not None and isinstance(pv, SliceV) and isinstance(st.regs.get(p["name"]), SliceV):
                 pv = st.regs[p["name"]]   # lengths fixed by the path condition are concrete here
+            elif st is not None and self.prog.int_info(p["type"]) and p["name"] in st.regs:
+                pv = st.regs[p["name"]]   # an integer parameter fixed by an entry case split
             v = wrap_typed(self.prog, pv, p["type"])
             env[nm] = v
             env[p["name"]] = v
@@ -978,6 +1052,7 @@ class FuncRun:
             if not all(h in hs for h in kept):
                 raise VerifError("%s: a path reached cut %s of loop %d after the cut had been merged" % (self.fname, cv, k))
             raise PathEnd()
+        self.cut_first.setdefault((head, st.entry_id), cv)
         self.parked.setdefault(key, []).append((st, k, body))
         raise PathEnd()
 
@@ -986,7 +1061,11 @@ class FuncRun:
         from .ceval import Evaluator
         if not self.parked:
             return None
-        key = next(iter(self.parked))
+        # iteration order: the group whose counter is closest to the first counter ever seen at that head
+        def dist(k_):
+            first = self.cut_first.setdefault((k_[0], k_[2]), k_[1])
+            return abs(k_[1] - first)
+        key = min(self.parked, key=dist)
         group = self.parked.pop(key)
         head, cv, _eid = key
         states = [g[0] for g in group]
@@ -1030,8 +1109,24 @@ class FuncRun:
             if nm in st.localname:
                 for c in self.cells_under(st.localname[nm], ()):
                     keep.add((c[0], c[1]))
+        # locals declared inside the loop body are re-allocated by every iteration and dead at the head
+        body_allocs = set()
+        for bi in body:
+            for ins in self.f["blocks"][bi]["instrs"]:
+                if ins["op"] == "Alloc":
+                    body_allocs.add(ins["reg"])
+        for r_ in body_allocs:
+            st.alloc_count[r_] = 0
+
+        def dead(oid):
+            for r_ in body_allocs:
+                if ("#%s." % r_) in oid:
+                    return True
+            return False
         newmem = {}
         for ck, v0 in st0.mem.items():
+            if dead(ck[0]):
+                continue
             same = all(_same(s_.mem.get(ck, _MISSING), v0) for s_ in states[1:])
             if same and (ck in keep or ck not in allowed):
                 newmem[ck] = v0
@@ -1081,6 +1176,16 @@ class FuncRun:
             env["result%d" % i] = wrap_typed(self.prog, r, rts[i])
         ev = Evaluator(self, st, self.old_mem, env, phase="post", assigned=self.assigned_names())
         rn = self.returns
+        # exceptional postcondition, converse direction: a normal return happens only if no `panics` condition held
+        pan = [o for o in self.c.other if o[0] == "panics"]
+        if pan:
+            from .cparse import parse_expr, split_label
+            evp = Evaluator(self, self.entry_state_for_eval(st), self.old_mem, self.contract_env(st), phase="pre")
+            cond = False
+            for _, txt in pan:
+                lab, e = split_label(txt)
+                cond = mk_or(cond, evp.bool(parse_expr(e)))
+            self.add_named(st, "panic", "panics.required", ins.get("pos", ""), mk_not(cond), "a normal return happens only when no declared panic condition holds")
         # instances of proved lemmas requested by the contract (`use name(args)`)
         for kind, txt in self.c.other:
             if kind == "use":
